@@ -4,7 +4,7 @@ sys.path.insert(0, os.path.dirname(os.path.dirname(os.path.abspath(__file__))))
 from checks import lib, mailfam
 
 ACTS = ["Deliver", "Select", "Noop", "Idle", "Store", "Fetch", "Expunge", "Append"]
-ALL = ACTS + ["Copy", "Move", "Search"]
+ALL = ACTS + ["Copy", "Move", "Search", "Status"]
 QUICK = {
     "exhaustive": [("2sess-1mbox-2msgs-flags-depth6", dict(depth=6, maxid=2, acts=["Select", "Noop", "Store", "Fetch", "Append", "Idle", "Search"],
                      flags='{{"Deleted"}, {"Seen"}, {"Flagged", "k1"}, {"Recent"}}', modes=("+", "-", "="),
